@@ -22,6 +22,7 @@ func checkC05(r *Result) {
 	r.rule("PAIR-DELEGATE", "a Delegate without account subtraction is paired with a transfer of the same amount into the pool matching its token source")
 	r.rule("PAIR-UNBOND", "the amount moved to the dispute escrow is the amount Unbond returned, out of the pool matching the validator's status")
 	r.rule("FRESH-VALIDATOR", "the validator value handed to Delegate is a store read of the same loop iteration (Delegate writes the value back)")
+	r.rule("POSITIVE-DELEGATE", "no Delegate with a zero amount (it would create a delegation without shares)")
 	r.rule("SHARE-OF-MOVED", "what is delegated back per recorded entry is the entry's amount or amount*moved/total, truncated — never more than the pool received")
 	r.rule("RECORD-EQUALS-TAKEN", "per-backer records store the amounts actually taken and their sum")
 
@@ -236,6 +237,31 @@ func checkC05(r *Result) {
 			r.check(ok, "FRESH-VALIDATOR", name+" # the validator handed to Delegate was read from the staking store in the same iteration", P.Pos(cs.Pos()), fmt.Sprintf("sources: %v ; other: %v", descs, odd))
 		}
 	}
+	// ---- POSITIVE-DELEGATE: Delegate with a zero amount creates a delegation record without shares; every
+	// Delegate is reached only with the amount known to be non-zero
+	for _, name := range []string{"(x/reporter/keeper.Keeper).ReturnSlashedTokens", "(x/reporter/keeper.Keeper).FeeRefund", "(x/reporter/keeper.Keeper).AddAmountToStake", "(x/reporter/keeper.msgServer).WithdrawTip"} {
+		fn := P.Func(name)
+		if fn == nil {
+			continue
+		}
+		for _, cs := range P.CallSitesIn(fn) {
+			if !isDelegate(cs) || cs.Fn != fn {
+				continue
+			}
+			amt := tm.Of(Arg(cs.Instr, 2)).String()
+			ps := AnalyzePaths(fn, []Atom{{Name: "zero", Cond: func(rel *Term) (bool, bool) {
+				if rel.Op == "==" && len(rel.Args) == 2 && rel.Args[1].Op == "const:0" && rel.Args[0].String() == amt {
+					return true, true
+				}
+				if rel.Op == "<" && len(rel.Args) == 2 && rel.Args[0].Op == "const:0" && rel.Args[1].String() == amt {
+					return true, false // 0 < amt: positive
+				}
+				return false, true
+			}}})
+			bad := ps.Require(cs.Instr, func(v map[string]bool) bool { return !v["zero"] })
+			r.check(len(bad) == 0 && len(ps.Matched["zero"]) > 0, "POSITIVE-DELEGATE", name+" # Delegate is reached only with a non-zero amount", P.Pos(cs.Pos()), fmt.Sprintf("valuations: %v", statesStr(ps, cs.Instr)))
+		}
+	}
 	// ---- PAIR-UNBOND
 	if mv := need("(x/reporter/keeper.Keeper).MoveTokensFromValidator"); mv != nil {
 		ps := AnalyzePaths(mv, []Atom{{Name: "bonded", Cond: func(rel *Term) (bool, bool) {
@@ -421,6 +447,7 @@ func checkC05(r *Result) {
 	r.minCount("RECORD-EQUALS-TAKEN", 6)
 	r.minCount("SHARE-OF-MOVED", 3)
 	r.minCount("FRESH-VALIDATOR", 4)
+	r.minCount("POSITIVE-DELEGATE", 4)
 }
 
 // enumConstVal: value of a constant in any loaded package.
